@@ -5,7 +5,7 @@
        non-blank line) can never drop a window when W >= 2 and ExceptionReraiseFilter (exactly two) never when W >= 3;
        ImportGroupFilter drops no window holding a non-blank line that does not start with `import ` / `from `. *)
 From TL Require Import Lib.Base Lib.GenTypes Model.DryBase Model.DryPipe Gen.DryGen Model.DryFilter Model.Dry Model.DrySpec
-     Proofs.DryGreedy Proofs.DryStageB Proofs.DryStageA Proofs.DryFilterP.
+     Proofs.DryGreedy Proofs.DryStageB Proofs.DryStageA Proofs.DryMain Proofs.DryFilterP.
 From Coq Require Import Sorting.Sorted.
 
 (* ------------------------------------------------------------------ (1) literals *)
@@ -275,4 +275,14 @@ Proof.
   cbn zeta. intros HW Hb Hk [l [Hl [Hn Hi]]]. rewrite registry_ref_spec. cbn zeta.
   rewrite Hk, (import_filter_spares _ _ _ l Hl Hn Hi), (logger_filter_spares_windows W files b ltac:(lia) Hb),
     (reraise_filter_spares_windows W files b HW Hb). rewrite !andb_false_r. reflexivity.
+Qed.
+
+(* the same for the windows of the faithful model - whatever the quirk vector - outside the defect classes of the text flags *)
+Theorem short_filters_spare_model_windows q W files b : lines_ok q files -> In b (dry_rows q W files) ->
+  let raw := raw_lines (nth_file files (r_file b)) in
+  (2 <= W -> model_logger_filter raw (r_start b) (r_end b) = false) /\ (3 <= W -> model_reraise_filter raw (r_start b) (r_end b) = false).
+Proof.
+  cbn zeta. intros Hok Hb. rewrite (model_rows_eq q W files Hok) in Hb. split; intros HW.
+  - exact (logger_filter_spares_windows W files b HW Hb).
+  - exact (reraise_filter_spares_windows W files b HW Hb).
 Qed.
